@@ -13,11 +13,22 @@ def job_fn(job):
     spec = job['spec']
     ct = build_python(spec)
     tally = decide.Tally()
+    ckw = {}
+    if job.get('dde_approx'):
+        ckw['dde_approx'] = job['dde_approx']
     try:
-        c = tv.compile_template(ct, vectorize=job['vectorize'], step_size=float(DT), solver=job['solver'])
+        c = tv.compile_template(ct, vectorize=job['vectorize'], step_size=float(DT), solver=job['solver'], **ckw)
     except tv.CompileError as e:
         return dict(status='compile-raises', error=str(e))
     plugin = tvdelay.ChainPlugin()
+    if job.get('dde_approx'):
+        # every plain delay becomes a chain of dde_approx stages of rate dde_approx/d
+        n_ = job['dde_approx']
+        plugin = tvdelay.ChainPlugin(order_of=lambda e: n_)
+        res = tvspec.validate(spec, c, tally, vectorized=job['vectorize'], plugin=plugin,
+                              t_sym=(3 if job['solver'] == 'euler' else None))
+        return dict(status='ok', res=res, tally=tally.as_dict(), src=c.src, keys=list(c.keys),
+                    smap={k: str(v) for k, v in c.smap.items()})
     if job['solver'] == 'euler' and any(e.delay is not None and e.spread is None for e in spec.edges):
         plugin = tvdelay.Composite(tvdelay.ChainPlugin(), tvdelay.RingBufferPlugin(DT))
     elif any(e.delay is not None and e.spread is None for e in spec.edges):
@@ -55,6 +66,17 @@ def run(tier='quick', seed=0, only=None, verbose=False):
         for v in (True, False):
             for solver in (('euler', 'scipy') if tier == 'thorough' else (('euler',) if v else ('scipy',))):
                 jobs.append(dict(key=f"{k}|vec={v}|{solver}", spec=s, vectorize=v, solver=solver))
+    # dde_approx=n: plain delays realised as n-stage chains
+    dd = [p for p in families.fam_discrete_delays_fixed() if p[0] in ('F9x:two-delays-one-source', 'F9x:ring',
+                                                                                'F9x:two-delays-one-target')]
+    for k, s in dd:
+        for n_ in ((2,) if tier == 'quick' else (1, 2, 3, 5)):
+            for v in (True, False):
+                for solver in ('euler', 'scipy'):
+                    jobs.append(dict(key=f"{k}|dde_approx={n_}|vec={v}|{solver}", spec=s, vectorize=v, solver=solver,
+                                     dde_approx=n_))
+    if only:
+        jobs = [j for j in jobs if only in j['key']]
     tvjobs.run_tv_jobs(rep, jobs, verbose=verbose, fn=job_fn)
     return rep.finish(rule='program = circuit with (delay, spread) edges x vectorize x solver flag; obligations: every '
                            'auxiliary state is a first-order stage k*(prev - z) whose input is a model variable or another '
